@@ -2,5 +2,849 @@ import PyCliffordModel.Proofs.Compose
 import PyCliffordModel.Spec.CircuitSpec
 /-! # Proofs/CircuitLemmas — helper lemmas for C09/C10 (gate locality, disjoint gates commute, the sliding rule of `take`) -/
 namespace PC
+namespace Ci
 
+/-! ## a generic operation applied through a mask -/
+
+/-- read the masked qubits, apply `f`, write them back (`rotateMasked`, `transformMasked` are instances) -/
+def maskedOp (f : Pauli → Pauli) (m : List Bool) (P : Pauli) : Pauli :=
+  ⟨scatter m P.g (f ⟨gather m P.g, P.p⟩).g, (f ⟨gather m P.g, P.p⟩).p⟩
+
+theorem rotateMasked_eq_maskedOp (G : Pauli) (m : List Bool) (P : Pauli) :
+    rotateMasked G m P = maskedOp (rotate G) m P := rfl
+theorem transformMasked_eq_maskedOp (M : List Pauli) (m : List Bool) (P : Pauli) :
+    transformMasked M m P = maskedOp (transform M) m P := rfl
+
+/-- the string produced by `f` depends only on the input string, and the input phase is carried through additively -/
+def PhaseLin (f : Pauli → Pauli) : Prop :=
+  ∀ X Y : Pauli, X.g = Y.g → (f X).g = (f Y).g ∧ (f X).p % 4 = ((f Y).p + X.p - Y.p) % 4
+
+theorem phaseLin_rotate (G : Pauli) : PhaseLin (rotate G) := fun X Y h => Tr.rotate_of_g_eq G X Y h
+theorem phaseLin_transform (M : List Pauli) : PhaseLin (transform M) := fun X Y h => Tr.transform_of_g_eq M X Y h
+theorem phaseLin_id : PhaseLin id := fun X Y h => ⟨h, by simp only [id]; omega⟩
+
+theorem length_maskedOp (f : Pauli → Pauli) (m : List Bool) (P : Pauli) : (maskedOp f m P).g.length = P.g.length := by
+  simp only [maskedOp]; exact length_scatter _ _ _
+
+theorem maskedOp_id (m : List Bool) (P : Pauli) : maskedOp id m P = P := by
+  simp only [maskedOp, id, scatter_gather]
+
+theorem maskedOp_congr {f : Pauli → Pauli} (hf : PhaseLin f) (m : List Bool) {a b : Pauli} (h : PEq a b) :
+    PEq (maskedOp f m a) (maskedOp f m b) := by
+  obtain ⟨hg, hp⟩ := h
+  have h1 := hf ⟨gather m a.g, a.p⟩ ⟨gather m b.g, b.p⟩ (by simp only [hg])
+  refine ⟨?_, ?_⟩
+  · simp only [maskedOp]; rw [h1.1, hg]
+  · have h2 := h1.2
+    simp only [maskedOp] at h2 ⊢
+    omega
+
+theorem maskedOp_g_unmasked (f : Pauli → Pauli) (m : List Bool) (P : Pauli) (i : Nat) (d : Q)
+    (hi : m.getD i false = false) : (maskedOp f m P).g.getD i d = P.g.getD i d := by
+  simp only [maskedOp]; exact getD_scatter_unmasked m P.g _ i d hi
+
+/-! ## disjoint masks: reads and writes do not interfere -/
+
+theorem gather_scatter_disj (m1 m2 : List Bool) (g x : PStr) (hd : maskDisj m1 m2 = true) :
+    gather m1 (scatter m2 g x) = gather m1 g := by
+  induction m1 generalizing m2 g x with
+  | nil => simp only [gather_nil_left]
+  | cons a as ih =>
+    cases m2 with
+    | nil => rw [scatter_nil_left]
+    | cons b bs =>
+      cases g with
+      | nil => rw [scatter_nil_mid]
+      | cons q qs =>
+        rw [maskDisj_cons, Bool.and_eq_true] at hd
+        obtain ⟨hab, hd'⟩ := hd
+        cases b with
+        | false =>
+          rw [scatter_cons_false]
+          cases a with
+          | false => rw [gather_cons_false, gather_cons_false, ih bs qs x hd']
+          | true => rw [gather_cons_true, gather_cons_true, ih bs qs x hd']
+        | true =>
+          have ha : a = false := by cases a <;> simp_all
+          subst ha
+          cases x with
+          | nil => rw [scatter_cons_true_nil, gather_cons_false, gather_cons_false, ih bs qs [] hd']
+          | cons x0 xs => rw [scatter_cons_true_cons, gather_cons_false, gather_cons_false, ih bs qs xs hd']
+
+theorem scatter_scatter_disj (m1 m2 : List Bool) (g x y : PStr) (hd : maskDisj m1 m2 = true) :
+    scatter m1 (scatter m2 g x) y = scatter m2 (scatter m1 g y) x := by
+  induction m1 generalizing m2 g x y with
+  | nil => simp only [scatter_nil_left]
+  | cons a as ih =>
+    cases m2 with
+    | nil => simp only [scatter_nil_left]
+    | cons b bs =>
+      cases g with
+      | nil => simp only [scatter_nil_mid]
+      | cons q qs =>
+        rw [maskDisj_cons, Bool.and_eq_true] at hd
+        obtain ⟨hab, hd'⟩ := hd
+        cases b with
+        | false =>
+          rw [scatter_cons_false]
+          cases a with
+          | false => rw [scatter_cons_false, scatter_cons_false, scatter_cons_false, ih bs qs x y hd']
+          | true =>
+            cases y with
+            | nil => rw [scatter_cons_true_nil, scatter_cons_true_nil, scatter_cons_false, ih bs qs x [] hd']
+            | cons y0 ys => rw [scatter_cons_true_cons, scatter_cons_true_cons, scatter_cons_false, ih bs qs x ys hd']
+        | true =>
+          have ha : a = false := by cases a <;> simp_all
+          subst ha
+          rw [scatter_cons_false]
+          cases x with
+          | nil => rw [scatter_cons_true_nil, scatter_cons_true_nil, scatter_cons_false, ih bs qs [] y hd']
+          | cons x0 xs => rw [scatter_cons_true_cons, scatter_cons_true_cons, scatter_cons_false, ih bs qs xs y hd']
+
+/-- **operations through disjoint masks commute** -/
+theorem maskedOp_comm {f1 f2 : Pauli → Pauli} (h1 : PhaseLin f1) (h2 : PhaseLin f2) (m1 m2 : List Bool)
+    (hd : maskDisj m1 m2 = true) (P : Pauli) :
+    PEq (maskedOp f1 m1 (maskedOp f2 m2 P)) (maskedOp f2 m2 (maskedOp f1 m1 P)) := by
+  have hd' : maskDisj m2 m1 = true := by rw [maskDisj_comm]; exact hd
+  have e1 := h1 ⟨gather m1 P.g, (f2 ⟨gather m2 P.g, P.p⟩).p⟩ ⟨gather m1 P.g, P.p⟩ rfl
+  have e2 := h2 ⟨gather m2 P.g, (f1 ⟨gather m1 P.g, P.p⟩).p⟩ ⟨gather m2 P.g, P.p⟩ rfl
+  simp only [maskedOp]
+  rw [gather_scatter_disj m1 m2 _ _ hd, gather_scatter_disj m2 m1 _ _ hd']
+  refine ⟨?_, ?_⟩
+  · simp only
+    rw [e1.1, e2.1, scatter_scatter_disj m1 m2 _ _ _ hd]
+  · have a := e1.2; have b := e2.2
+    simp only at a b ⊢
+    omega
+
+/-! ## full masks -/
+
+theorem gather_replicate_true (N : Nat) (g : PStr) (h : g.length ≤ N) : gather (List.replicate N true) g = g := by
+  induction N generalizing g with
+  | zero =>
+    have : g = [] := List.eq_nil_of_length_eq_zero (by omega)
+    subst this; rfl
+  | succ N ih =>
+    cases g with
+    | nil => rw [gather_nil_right]
+    | cons q qs =>
+      rw [List.replicate_succ, gather_cons_true, ih qs (by simpa using h)]
+
+theorem scatter_replicate_true (N : Nat) (g s : PStr) (h : g.length ≤ N) (hs : s.length = g.length) :
+    scatter (List.replicate N true) g s = s := by
+  induction N generalizing g s with
+  | zero =>
+    have hg : g = [] := List.eq_nil_of_length_eq_zero (by omega)
+    subst hg
+    have : s = [] := List.eq_nil_of_length_eq_zero (by simpa using hs)
+    subst this; rfl
+  | succ N ih =>
+    cases g with
+    | nil =>
+      have : s = [] := List.eq_nil_of_length_eq_zero (by simpa using hs)
+      subst this; rw [scatter_nil_mid]
+    | cons q qs =>
+      cases s with
+      | nil => simp at hs
+      | cons s0 ss =>
+        rw [List.replicate_succ, scatter_cons_true_cons, ih qs ss (by simpa using h) (by simpa using hs)]
+
+theorem maskedOp_full (f : Pauli → Pauli) (N : Nat) (P : Pauli) (hP : P.g.length = N) (hf : (f P).g.length = N) :
+    maskedOp f (List.replicate N true) P = f P := by
+  simp only [maskedOp]
+  rw [gather_replicate_true N P.g (by omega)]
+  show (⟨scatter (List.replicate N true) P.g (f P).g, (f P).p⟩ : Pauli) = f P
+  rw [scatter_replicate_true N P.g _ (by omega) (by omega)]
+
+theorem eq_replicate_of_maskCount (m : List Bool) (h : maskCount m = m.length) : m = List.replicate m.length true := by
+  induction m with
+  | nil => rfl
+  | cons b ms ih =>
+    cases b with
+    | false =>
+      rw [maskCount_cons_false] at h
+      have := maskCount_le_length ms
+      simp only [List.length_cons] at h; omega
+    | true =>
+      rw [maskCount_cons_true] at h
+      have h' : maskCount ms = ms.length := by simpa using h
+      rw [List.length_cons, List.replicate_succ, ← ih h']
+
+/-! ## inverse pairs through a mask -/
+
+theorem maskedOp_cancel (f f' : Pauli → Pauli) (k : Nat) (m : List Bool) (P : Pauli)
+    (hlen : ∀ X : Pauli, X.g.length = k → (f X).g.length = k)
+    (hinv : ∀ X : Pauli, X.g.length = k → PEq (f' (f X)) X)
+    (hk : maskCount m = k) (hm : m.length ≤ P.g.length) :
+    PEq (maskedOp f' m (maskedOp f m P)) P := by
+  have hX : (gather m P.g).length = k := by rw [length_gather m P.g hm, hk]
+  have hs := hlen ⟨gather m P.g, P.p⟩ hX
+  have hi := hinv ⟨gather m P.g, P.p⟩ hX
+  have hti : (f' (f ⟨gather m P.g, P.p⟩)).g = gather m P.g := hi.1
+  simp only [maskedOp]
+  rw [gather_scatter m P.g _ hm (by rw [hs, hk])]
+  show PEq ⟨scatter m (scatter m P.g (f ⟨gather m P.g, P.p⟩).g) (f' (f ⟨gather m P.g, P.p⟩)).g,
+    (f' (f ⟨gather m P.g, P.p⟩)).p⟩ P
+  rw [hti, Tr.scatter_scatter m P.g _ _ (by rw [hX, hk]), scatter_gather]
+  exact ⟨rfl, hi.2⟩
+
+
+theorem length_maskOf (qs : List Nat) (N : Nat) : (maskOf qs N).length = N := by
+  simp [maskOf]
+
+theorem getD_maskOf (qs : List Nat) (N i : Nat) :
+    (maskOf qs N).getD i false = (decide (i < N) && qs.contains i) := by
+  unfold maskOf
+  by_cases h : i < N
+  · simp [List.getD_eq_getElem?_getD, h]
+  · have : N ≤ i := by omega
+    simp [List.getD_eq_getElem?_getD, h]
+
+theorem getD_maskOf_not_mem (qs : List Nat) (N i : Nat) (hi : i ∉ qs) : (maskOf qs N).getD i false = false := by
+  rw [getD_maskOf]
+  have : qs.contains i = false := by
+    cases h : qs.contains i
+    · rfl
+    · exact absurd (List.contains_iff_mem.1 h) hi
+  rw [this, Bool.and_false]
+
+theorem maskCount_maskOf (qs : List Nat) (N : Nat) (hn : qs.Nodup) (hq : ∀ q ∈ qs, q < N) :
+    maskCount (maskOf qs N) = qs.length := by
+  unfold maskCount maskOf
+  rw [List.filter_map, List.length_map]
+  apply List.Perm.length_eq
+  rw [List.perm_ext_iff_of_nodup (List.nodup_range.sublist List.filter_sublist) hn]
+  intro a
+  simp only [List.mem_filter, List.mem_range, Function.comp, id, List.contains_iff_mem]
+  exact ⟨fun h => h.2, fun h => ⟨hq a h, h⟩⟩
+
+theorem maskOf_full (qs : List Nat) (N : Nat) (hn : qs.Nodup) (hq : ∀ q ∈ qs, q < N) (hl : qs.length = N) :
+    maskOf qs N = List.replicate N true := by
+  have h := eq_replicate_of_maskCount (maskOf qs N) (by rw [maskCount_maskOf qs N hn hq, length_maskOf, hl])
+  rw [length_maskOf] at h
+  exact h
+
+theorem indep_iff (g h : Gate) : g.indep h = true ↔ ∀ q, q ∈ g.qubits → q ∉ h.qubits := by
+  unfold Gate.indep
+  rw [Bool.not_eq_true', ← Bool.not_eq_true, List.any_eq_true]
+  constructor
+  · intro H q hq hq'
+    exact H ⟨q, hq, List.contains_iff_mem.2 hq'⟩
+  · rintro H ⟨q, hq, hc⟩
+    exact H q hq (List.contains_iff_mem.1 hc)
+
+theorem indep_comm (g h : Gate) : g.indep h = h.indep g := by
+  rw [Bool.eq_iff_iff, indep_iff, indep_iff]
+  exact ⟨fun H q hq hq' => H q hq' hq, fun H q hq hq' => H q hq' hq⟩
+
+theorem maskDisj_maskOf (g h : Gate) (N : Nat) (hd : g.indep h = true) :
+    maskDisj (maskOf g.qubits N) (maskOf h.qubits N) = true := by
+  rw [maskDisj_iff_getD]
+  rintro i ⟨h1, h2⟩
+  rw [getD_maskOf, Bool.and_eq_true] at h1 h2
+  exact (indep_iff g h).1 hd i (List.contains_iff_mem.1 h1.2) (List.contains_iff_mem.1 h2.2)
+
+/-! ## `utils.mask` -/
+
+theorem foldl_max_lt (l : List Int) (a N : Int) (ha : a < N) (hl : ∀ x ∈ l, x < N) : l.foldl max a < N := by
+  induction l generalizing a with
+  | nil => exact ha
+  | cons x xs ih =>
+    rw [List.foldl_cons]
+    apply ih
+    · have := hl x (by simp)
+      omega
+    · intro y hy; exact hl y (by simp [hy])
+
+theorem qMask_eq (qubits : List Nat) (N : Nat) (h0 : qubits ≠ []) (h : ∀ q ∈ qubits, q < N) :
+    qMask qubits N = .ok (maskOf qubits N) := by
+  cases qubits with
+  | nil => exact absurd rfl h0
+  | cons q0 qs =>
+    unfold qMask mkMask
+    simp only [List.map_cons]
+    have h1 : ¬ ((qs.map Int.ofNat).foldl max (Int.ofNat q0) ≥ (N : Int)) := by
+      have := foldl_max_lt (qs.map Int.ofNat) (Int.ofNat q0) N
+        (by have := h q0 (by simp); simp; omega)
+        (by
+          intro x hx
+          obtain ⟨q, hq, rfl⟩ := List.mem_map.1 hx
+          have := h q (by simp [hq]); simp; omega)
+      omega
+    rw [if_neg h1]
+    have h2 : (Int.ofNat q0 :: qs.map Int.ofNat).any (· < -(N : Int)) = false := by
+      rw [← List.map_cons, Bool.eq_false_iff]
+      intro hc
+      rw [List.any_eq_true] at hc
+      obtain ⟨x, hx, hlt⟩ := hc
+      obtain ⟨q, hq, rfl⟩ := List.mem_map.1 hx
+      simp at hlt; omega
+    rw [h2]
+    simp only [Bool.false_eq_true, if_false]
+    have h3a : (if Int.ofNat q0 < 0 then Int.ofNat q0 + (N : Int) else Int.ofNat q0).toNat = q0 := by
+      have : ¬ (Int.ofNat q0 < 0) := by simp
+      rw [if_neg this]; simp
+    have h3b : (qs.map Int.ofNat).map (fun q => Int.toNat (if q < 0 then q + (N : Int) else q)) = qs := by
+      rw [List.map_map]
+      conv => rhs; rw [← List.map_id qs]
+      apply List.map_congr_left
+      intro q _
+      have : ¬ (Int.ofNat q < 0) := by simp
+      simp only [Function.comp, if_neg this]; simp
+    rw [h3a, h3b]
+    rfl
+
+
+/-! ## gates as masked operations -/
+
+def gateFun (g : Gate) : Pauli → Pauli :=
+  match g.gen with
+  | some G => rotate G
+  | none =>
+    match g.fmap with
+    | some M => transform M
+    | none => id
+
+def gateFunInv (g : Gate) : Pauli → Pauli :=
+  match g.gen with
+  | some G => rotate (neg G)
+  | none =>
+    match g.fmap with
+    | some M => match inverse M with
+      | some B => transform B
+      | none => id
+    | none => id
+
+theorem gateAct_eq (g : Gate) (N : Nat) (P : Pauli) :
+    gateAct g N P = maskedOp (gateFun g) (maskOf g.qubits N) P := by
+  unfold gateAct gateFun
+  cases g.gen with
+  | some G => rfl
+  | none =>
+    cases g.fmap with
+    | some M => rfl
+    | none => exact (maskedOp_id _ _).symm
+
+theorem gateActInv_eq (g : Gate) (N : Nat) (P : Pauli) :
+    gateActInv g N P = maskedOp (gateFunInv g) (maskOf g.qubits N) P := by
+  unfold gateActInv gateFunInv
+  cases g.gen with
+  | some G => rfl
+  | none =>
+    cases g.fmap with
+    | some M =>
+      dsimp only
+      cases inverse M with
+      | some B => rfl
+      | none => exact (maskedOp_id _ _).symm
+    | none => exact (maskedOp_id _ _).symm
+
+theorem phaseLin_gateFun (g : Gate) : PhaseLin (gateFun g) := by
+  unfold gateFun
+  cases g.gen with
+  | some G => exact phaseLin_rotate G
+  | none =>
+    cases g.fmap with
+    | some M => exact phaseLin_transform M
+    | none => exact phaseLin_id
+
+theorem phaseLin_gateFunInv (g : Gate) : PhaseLin (gateFunInv g) := by
+  unfold gateFunInv
+  cases g.gen with
+  | some G => exact phaseLin_rotate _
+  | none =>
+    cases g.fmap with
+    | some M =>
+      dsimp only
+      cases inverse M with
+      | some B => exact phaseLin_transform B
+      | none => exact phaseLin_id
+    | none => exact phaseLin_id
+
+theorem length_gateAct (g : Gate) (N : Nat) (P : Pauli) : (gateAct g N P).g.length = P.g.length := by
+  rw [gateAct_eq]; exact length_maskedOp _ _ _
+theorem length_gateActInv (g : Gate) (N : Nat) (P : Pauli) : (gateActInv g N P).g.length = P.g.length := by
+  rw [gateActInv_eq]; exact length_maskedOp _ _ _
+
+theorem gateAct_congr (g : Gate) (N : Nat) {a b : Pauli} (h : PEq a b) : PEq (gateAct g N a) (gateAct g N b) := by
+  rw [gateAct_eq, gateAct_eq]; exact maskedOp_congr (phaseLin_gateFun g) _ h
+theorem gateActInv_congr (g : Gate) (N : Nat) {a b : Pauli} (h : PEq a b) :
+    PEq (gateActInv g N a) (gateActInv g N b) := by
+  rw [gateActInv_eq, gateActInv_eq]; exact maskedOp_congr (phaseLin_gateFunInv g) _ h
+
+/-- gates without a common qubit commute (no well-formedness needed) -/
+theorem gateAct_comm (g h : Gate) (N : Nat) (P : Pauli) (hd : g.indep h = true) :
+    PEq (gateAct g N (gateAct h N P)) (gateAct h N (gateAct g N P)) := by
+  simp only [gateAct_eq]
+  exact maskedOp_comm (phaseLin_gateFun g) (phaseLin_gateFun h) _ _ (maskDisj_maskOf g h N hd) P
+
+/-! ## sequences -/
+
+theorem seqAct_nil (N : Nat) (P : Pauli) : seqAct [] N P = P := rfl
+theorem seqAct_cons (g : Gate) (gs : List Gate) (N : Nat) (P : Pauli) :
+    seqAct (g :: gs) N P = seqAct gs N (gateAct g N P) := rfl
+theorem seqAct_append (as bs : List Gate) (N : Nat) (P : Pauli) :
+    seqAct (as ++ bs) N P = seqAct bs N (seqAct as N P) := by
+  unfold seqAct; rw [List.foldl_append]
+theorem seqActInv_nil (N : Nat) (P : Pauli) : seqActInv [] N P = P := rfl
+theorem seqActInv_cons (g : Gate) (gs : List Gate) (N : Nat) (P : Pauli) :
+    seqActInv (g :: gs) N P = gateActInv g N (seqActInv gs N P) := rfl
+
+theorem length_seqAct (gs : List Gate) (N : Nat) (P : Pauli) : (seqAct gs N P).g.length = P.g.length := by
+  induction gs generalizing P with
+  | nil => rfl
+  | cons g gs ih => rw [seqAct_cons, ih, length_gateAct]
+theorem length_seqActInv (gs : List Gate) (N : Nat) (P : Pauli) : (seqActInv gs N P).g.length = P.g.length := by
+  induction gs generalizing P with
+  | nil => rfl
+  | cons g gs ih => rw [seqActInv_cons, length_gateActInv, ih]
+
+theorem seqAct_congr (gs : List Gate) (N : Nat) {a b : Pauli} (h : PEq a b) : PEq (seqAct gs N a) (seqAct gs N b) := by
+  induction gs generalizing a b with
+  | nil => exact h
+  | cons g gs ih => rw [seqAct_cons, seqAct_cons]; exact ih (gateAct_congr g N h)
+theorem seqActInv_congr (gs : List Gate) (N : Nat) {a b : Pauli} (h : PEq a b) :
+    PEq (seqActInv gs N a) (seqActInv gs N b) := by
+  induction gs with
+  | nil => exact h
+  | cons g gs ih => rw [seqActInv_cons, seqActInv_cons]; exact gateActInv_congr g N ih
+
+/-- a gate commutes past a block of gates that are all independent of it -/
+theorem seqAct_bubble (g : Gate) (B : List Gate) (N : Nat) (P : Pauli) (hB : ∀ h ∈ B, h.indep g = true) :
+    PEq (seqAct (g :: B) N P) (seqAct (B ++ [g]) N P) := by
+  induction B generalizing P with
+  | nil => exact PEq.refl _
+  | cons h B ih =>
+    have hB' : ∀ x ∈ B, x.indep g = true := fun x hx => hB x (by simp [hx])
+    have hc : PEq (gateAct h N (gateAct g N P)) (gateAct g N (gateAct h N P)) :=
+      gateAct_comm h g N P (hB h (by simp))
+    show PEq (seqAct B N (gateAct h N (gateAct g N P))) (seqAct (B ++ [g]) N (gateAct h N P))
+    exact (seqAct_congr B N hc).trans (ih (gateAct h N P) hB')
+
+theorem seqAct_insert (A B : List Gate) (g : Gate) (N : Nat) (P : Pauli) (hB : ∀ h ∈ B, h.indep g = true) :
+    PEq (seqAct (A ++ g :: B) N P) (seqAct ((A ++ B) ++ [g]) N P) := by
+  rw [seqAct_append, List.append_assoc, seqAct_append]
+  exact seqAct_bubble g B N _ hB
+
+
+/-! ## backward undoes forward -/
+
+/-- rotating by `−G` undoes rotating by `G` (Hermitian `G`); same proof as `C02_rotate_neg_cancel` -/
+theorem rotate_neg_cancel (G P : Pauli) (hG : G.p % 2 = 0) (hl : G.g.length = P.g.length) :
+    PEq (rotate (neg G) (rotate G P)) P ∧ PEq (rotate G (rotate (neg G) P)) P := by
+  have hnl : (neg G).g.length = P.g.length := hl
+  rcases acq_bit G.g P.g with h | h
+  · have hn : acq (neg G).g P.g = 0 := h
+    rw [rotate_of_acq_zero G P h, rotate_of_acq_zero (neg G) P hn, rotate_of_acq_zero G P h]
+    exact ⟨PEq.refl _, PEq.refl _⟩
+  · have hn : acq (neg G).g P.g = 1 := h
+    have a := rotate_rotate_same_g G (neg G) P rfl hl h
+    have b := rotate_rotate_same_g (neg G) G P rfl hnl hn
+    refine ⟨⟨a.1, ?_⟩, ⟨b.1, ?_⟩⟩
+    · have := a.2; simp only [neg] at this ⊢; omega
+    · have := b.2; simp only [neg] at this ⊢; omega
+
+theorem gateFun_gen (g : Gate) (G : Pauli) (h : g.gen = some G) : gateFun g = rotate G := by
+  unfold gateFun; rw [h]
+theorem gateFunInv_gen (g : Gate) (G : Pauli) (h : g.gen = some G) : gateFunInv g = rotate (neg G) := by
+  unfold gateFunInv; rw [h]
+theorem gateFun_map (g : Gate) (M : CMap) (h : g.gen = none) (hM : g.fmap = some M) : gateFun g = transform M := by
+  unfold gateFun; rw [h, hM]
+theorem gateFunInv_map (g : Gate) (M B : CMap) (h : g.gen = none) (hM : g.fmap = some M) (hB : inverse M = some B) :
+    gateFunInv g = transform B := by
+  unfold gateFunInv; rw [h, hM]; dsimp only; rw [hB]
+
+theorem gate_inverse (g : Gate) (N : Nat) (P : Pauli) (hg : g.WF N) (hP : P.g.length = N) :
+    PEq (gateActInv g N (gateAct g N P)) P ∧ PEq (gateAct g N (gateActInv g N P)) P := by
+  obtain ⟨_, hq, hn, hk⟩ := hg
+  have hk' : maskCount (maskOf g.qubits N) = g.n := maskCount_maskOf g.qubits N hn hq
+  have hm : (maskOf g.qubits N).length ≤ P.g.length := by rw [length_maskOf, hP]; exact Nat.le_refl _
+  simp only [gateAct_eq, gateActInv_eq]
+  rcases hk with ⟨G, hgen, hGl, hGp⟩ | ⟨hgen, M, hM, hV⟩
+  · rw [gateFun_gen g G hgen, gateFunInv_gen g G hgen]
+    have hnp : (neg G).p % 2 = 0 := by simp only [neg]; omega
+    constructor
+    · exact maskedOp_cancel _ _ g.n _ P
+        (fun X hX => by rw [length_rotate G X (hGl.trans hX.symm)]; exact hX)
+        (fun X hX => (rotate_neg_cancel G X hGp (hGl.trans hX.symm)).1) hk' hm
+    · exact maskedOp_cancel _ _ g.n _ P
+        (fun X hX => by rw [length_rotate (neg G) X (hGl.trans hX.symm)]; exact hX)
+        (fun X hX => (rotate_neg_cancel G X hGp (hGl.trans hX.symm)).2) hk' hm
+  · obtain ⟨B, hB, hVB, hAB, hBA⟩ := Cp.inverse_spec M g.n hV
+    rw [gateFun_map g M hgen hM, gateFunInv_map g M B hgen hM hB]
+    constructor
+    · exact maskedOp_cancel _ _ g.n _ P
+        (fun X _ => Tr.length_transform M g.n hV.1 (fun R hR => (hV.2.1 R hR).1) X)
+        (fun X hX => Cp.acts_id_of_rows M B g.n hV hVB hAB X hX) hk' hm
+    · exact maskedOp_cancel _ _ g.n _ P
+        (fun X _ => Tr.length_transform B g.n hVB.1 (fun R hR => (hVB.2.1 R hR).1) X)
+        (fun X hX => Cp.acts_id_of_rows B M g.n hVB hV hBA X hX) hk' hm
+
+theorem program_inverse (prog : List Gate) (N : Nat) (P : Pauli) (hw : ∀ g ∈ prog, g.WF N) (hP : P.g.length = N) :
+    PEq (seqActInv prog N (seqAct prog N P)) P ∧ PEq (seqAct prog N (seqActInv prog N P)) P := by
+  induction prog generalizing P with
+  | nil => exact ⟨PEq.refl _, PEq.refl _⟩
+  | cons g gs ih =>
+    have hg := hw g (by simp)
+    have hgs : ∀ x ∈ gs, x.WF N := fun x hx => hw x (by simp [hx])
+    rw [seqAct_cons, seqActInv_cons, seqActInv_cons, seqAct_cons]
+    constructor
+    · have h1 := (ih (gateAct g N P) hgs (by rw [length_gateAct]; exact hP)).1
+      exact (gateActInv_congr g N h1).trans (gate_inverse g N P hg hP).1
+    · have h1 := (gate_inverse g N (seqActInv gs N P) hg (by rw [length_seqActInv]; exact hP)).2
+      exact (seqAct_congr gs N h1).trans (ih P hgs hP).2
+
+/-! ## the model's `forward`/`backward` of one gate, exactly -/
+
+theorem gateAct_full (g : Gate) (N : Nat) (P : Pauli) (hg : g.WF N) (hN : g.n = N) (hP : P.g.length = N) :
+    gateAct g N P = gateFun g P := by
+  obtain ⟨_, hq, hn, hk⟩ := hg
+  rw [gateAct_eq, maskOf_full g.qubits N hn hq hN]
+  apply maskedOp_full _ N P hP
+  rcases hk with ⟨G, hgen, hGl, hGp⟩ | ⟨hgen, M, hM, hV⟩
+  · rw [gateFun_gen g G hgen, length_rotate G P (by rw [hGl, hN, hP])]; exact hP
+  · rw [gateFun_map g M hgen hM, ← hN]
+    exact Tr.length_transform M g.n hV.1 (fun R hR => (hV.2.1 R hR).1) P
+
+theorem gateActInv_full_gen (g : Gate) (G : Pauli) (N : Nat) (P : Pauli) (hg : g.WF N) (hgen : g.gen = some G)
+    (hN : g.n = N) (hP : P.g.length = N) : gateActInv g N P = rotate (neg G) P := by
+  obtain ⟨_, hq, hn, hk⟩ := hg
+  rw [gateActInv_eq, maskOf_full g.qubits N hn hq hN, gateFunInv_gen g G hgen]
+  apply maskedOp_full _ N P hP
+  rcases hk with ⟨G', hgen', hGl, hGp⟩ | ⟨hgen', _⟩
+  · rw [hgen] at hgen'
+    cases hgen'
+    rw [length_rotate (neg G) P (by show G.g.length = _; rw [hGl, hN, hP])]; exact hP
+  · rw [hgen] at hgen'; cases hgen'
+
+theorem gate_forward_eq (g : Gate) (N : Nat) (rows : List Pauli) (rnd : List CMap) (hg : g.WF N)
+    (hr : ∀ R ∈ rows, R.g.length = N) : g.forward N rows rnd = .ok (g, rows.map (gateAct g N), rnd) := by
+  have hg' := hg
+  obtain ⟨h0, hq, hn, hk⟩ := hg
+  have hmask := qMask_eq g.qubits N h0 hq
+  rcases hk with ⟨G, hgen, hGl, hGp⟩ | ⟨hgen, M, hM, hV⟩
+  · simp only [Gate.forward, hgen]
+    by_cases hN : g.n = N
+    · rw [if_pos hN]
+      have : rows.map (rotate G) = rows.map (gateAct g N) := by
+        apply List.map_congr_left
+        intro R hR
+        rw [gateAct_full g N R hg' hN (hr R hR), gateFun_gen g G hgen]
+      rw [this]
+    · rw [if_neg hN, hmask]
+      have : rows.map (rotateMasked G (maskOf g.qubits N)) = rows.map (gateAct g N) := by
+        apply List.map_congr_left
+        intro R _
+        simp only [gateAct, hgen]
+      simp only [this]
+  · simp only [Gate.forward, hgen, hM]
+    by_cases hN : g.n = N
+    · rw [if_pos hN]
+      have : rows.map (transform M) = rows.map (gateAct g N) := by
+        apply List.map_congr_left
+        intro R hR
+        rw [gateAct_full g N R hg' hN (hr R hR), gateFun_map g M hgen hM]
+      rw [this]
+    · rw [if_neg hN, hmask]
+      have : rows.map (transformMasked M (maskOf g.qubits N)) = rows.map (gateAct g N) := by
+        apply List.map_congr_left
+        intro R _
+        simp only [gateAct, hgen, hM]
+      simp only [this]
+
+theorem gate_backward_eq (g : Gate) (N : Nat) (rows : List Pauli) (rnd : List CMap) (hg : g.WF N)
+    (hb : g.bmap = none) (hr : ∀ R ∈ rows, R.g.length = N) :
+    ∃ g', g.backward N rows rnd = .ok (g', rows.map (gateActInv g N), rnd) := by
+  have hg' := hg
+  obtain ⟨h0, hq, hn, hk⟩ := hg
+  have hmask := qMask_eq g.qubits N h0 hq
+  rcases hk with ⟨G, hgen, hGl, hGp⟩ | ⟨hgen, M, hM, hV⟩
+  · refine ⟨g, ?_⟩
+    simp only [Gate.backward, hgen]
+    by_cases hN : g.n = N
+    · rw [if_pos hN]
+      have : rows.map (rotate (neg G)) = rows.map (gateActInv g N) := by
+        apply List.map_congr_left
+        intro R hR
+        rw [gateActInv_full_gen g G N R hg' hgen hN (hr R hR)]
+      rw [this]
+    · rw [if_neg hN, hmask]
+      have : rows.map (rotateMasked (neg G) (maskOf g.qubits N)) = rows.map (gateActInv g N) := by
+        apply List.map_congr_left
+        intro R _
+        simp only [gateActInv, hgen]
+      simp only [this]
+  · obtain ⟨B, hB, -, -, -⟩ := Cp.inverse_spec M g.n hV
+    refine ⟨{ g with bmap := some B }, ?_⟩
+    simp only [Gate.backward, hgen, hM, hb, hB, hmask]
+    have : rows.map (transformMasked B (maskOf g.qubits N)) = rows.map (gateActInv g N) := by
+      apply List.map_congr_left
+      intro R _
+      simp only [gateActInv, hgen, hM, hB]
+    rw [this]
+
+
+/-! ## running a list of gates, a layer, a list of layers -/
+
+def layerGates : Layer → List Gate
+  | .gates gs _ _ => gs
+  | .meas .. => []
+/-- the gates of a layer list in execution order -/
+def flatGates (Ls : List Layer) : List Gate := Ls.flatMap layerGates
+/-- a gate layer without a compiled forward map -/
+def PlainL (L : Layer) : Prop := ∃ gs b, L = .gates gs none b
+
+theorem flatGates_nil : flatGates [] = [] := rfl
+theorem flatGates_cons (L : Layer) (Ls : List Layer) : flatGates (L :: Ls) = layerGates L ++ flatGates Ls := by
+  simp [flatGates]
+theorem flatGates_append (As Bs : List Layer) : flatGates (As ++ Bs) = flatGates As ++ flatGates Bs := by
+  simp [flatGates]
+theorem flatGates_reverse_cons (L : Layer) (Ls : List Layer) :
+    flatGates (L :: Ls).reverse = flatGates Ls.reverse ++ layerGates L := by
+  rw [List.reverse_cons, flatGates_append, flatGates_cons, flatGates_nil, List.append_nil]
+
+theorem gatesForward_eq (N : Nat) (gs : List Gate) (rows : List Pauli) (rnd : List CMap)
+    (hw : ∀ g ∈ gs, g.WF N) (hr : ∀ R ∈ rows, R.g.length = N) :
+    gatesForward N gs rows rnd = .ok (gs, rows.map (seqAct gs N), rnd) := by
+  induction gs generalizing rows with
+  | nil =>
+    have : seqAct [] N = id := rfl
+    rw [this, List.map_id]; rfl
+  | cons g gs ih =>
+    have hr' : ∀ R ∈ rows.map (gateAct g N), R.g.length = N := by
+      intro R hR
+      obtain ⟨R0, hR0, rfl⟩ := List.mem_map.1 hR
+      rw [length_gateAct]; exact hr R0 hR0
+    unfold gatesForward
+    rw [gate_forward_eq g N rows rnd (hw g (by simp)) hr]
+    dsimp only
+    rw [ih (rows.map (gateAct g N)) (fun x hx => hw x (by simp [hx])) hr']
+    dsimp only
+    rw [List.map_map]
+    rfl
+
+theorem layersForward_eq (N : Nat) (Ls : List Layer) (rows : List Pauli) (r : Nat) (s : Bool) (coins : List Bool)
+    (rnd : List CMap) (hp : ∀ L ∈ Ls, PlainL L) (hw : ∀ g ∈ flatGates Ls, g.WF N)
+    (hr : ∀ R ∈ rows, R.g.length = N) :
+    layersForward N Ls ⟨⟨rows, r, s⟩, coins, rnd⟩ =
+      .ok (Ls, ⟨⟨rows.map (seqAct (flatGates Ls) N), r, s⟩, coins, rnd⟩, [], 0) := by
+  induction Ls generalizing rows with
+  | nil =>
+    have : seqAct (flatGates []) N = id := rfl
+    rw [this, List.map_id]; rfl
+  | cons L Ls ih =>
+    obtain ⟨gs, b, rfl⟩ := hp L (by simp)
+    have hwg : ∀ g ∈ gs, g.WF N := fun g hg => hw g (by rw [flatGates_cons]; simp [layerGates, hg])
+    have hwl : ∀ g ∈ flatGates Ls, g.WF N := fun g hg => hw g (by rw [flatGates_cons]; simp [hg])
+    have hr' : ∀ R ∈ rows.map (seqAct gs N), R.g.length = N := by
+      intro R hR
+      obtain ⟨R0, hR0, rfl⟩ := List.mem_map.1 hR
+      rw [length_seqAct]; exact hr R0 hR0
+    have hL : Layer.forward N (.gates gs none b) ⟨⟨rows, r, s⟩, coins, rnd⟩ =
+        .ok (.gates gs none b, ⟨⟨rows.map (seqAct gs N), r, s⟩, coins, rnd⟩) := by
+      simp only [Layer.forward, gatesForward_eq N gs rows rnd hwg hr]
+    unfold layersForward
+    rw [hL]
+    dsimp only
+    rw [ih (rows.map (seqAct gs N)) (fun X hX => hp X (by simp [hX])) hwl hr']
+    dsimp only
+    rw [List.map_map, flatGates_cons]
+    have : seqAct (flatGates Ls) N ∘ seqAct gs N = seqAct (layerGates (.gates gs none b) ++ flatGates Ls) N := by
+      funext P; simp only [Function.comp, seqAct_append, layerGates]
+    rw [this]
+
+/-! ## `take`: the sliding rule -/
+
+theorem indep_gates (L : Layer) (g : Gate) (h : L.indep g = true) :
+    ∃ gs f b, L = .gates gs f b ∧ ∀ x ∈ gs, x.indep g = true := by
+  cases L with
+  | meas q r k => simp [Layer.indep] at h
+  | gates gs f b =>
+    refine ⟨gs, f, b, rfl, ?_⟩
+    simpa [Layer.indep, List.all_eq_true] using h
+
+theorem plainL_append (L : Layer) (g : Gate) (h : PlainL L) : PlainL (L.append g) := by
+  obtain ⟨gs, b, rfl⟩ := h
+  exact ⟨gs ++ [g], b, rfl⟩
+
+theorem layerGates_append (L : Layer) (g : Gate) (h : L.isMeas = false) :
+    layerGates (L.append g) = layerGates L ++ [g] := by
+  cases L with
+  | meas q r k => simp [Layer.isMeas] at h
+  | gates gs f b => rfl
+
+/-- `takeRev` puts the gate behind a block of gates that are all independent of it -/
+theorem takeRev_spec (g : Gate) : ∀ (rest : List Layer) (L : Layer), L.indep g = true →
+    (∀ X ∈ L :: rest, PlainL X) →
+    (∀ X ∈ takeRev (L :: rest) g, PlainL X) ∧
+    ∃ A B, flatGates (L :: rest).reverse = A ++ B ∧ flatGates (takeRev (L :: rest) g).reverse = A ++ g :: B ∧
+      ∀ h ∈ B, h.indep g = true := by
+  intro rest
+  induction rest with
+  | nil =>
+    intro L hi hp
+    obtain ⟨gs, f, b, rfl, hgs⟩ := indep_gates L g hi
+    refine ⟨?_, gs, [], ?_, ?_, ?_⟩
+    · intro X hX
+      simp only [takeRev, List.mem_singleton] at hX
+      subst hX
+      exact plainL_append _ g (hp _ (by simp))
+    · simp [flatGates, layerGates]
+    · simp [takeRev, Layer.append, flatGates, layerGates]
+    · intro h hh; simp at hh
+  | cons P rest ih =>
+    intro L hi hp
+    obtain ⟨gs, f, b, rfl, hgs⟩ := indep_gates L g hi
+    have stop : (∀ X ∈ (Layer.gates gs f b).append g :: P :: rest, PlainL X) ∧
+        ∃ A B, flatGates (Layer.gates gs f b :: P :: rest).reverse = A ++ B ∧
+          flatGates ((Layer.gates gs f b).append g :: P :: rest).reverse = A ++ g :: B ∧
+          ∀ h ∈ B, h.indep g = true := by
+      refine ⟨?_, flatGates (P :: rest).reverse ++ gs, [], ?_, ?_, ?_⟩
+      · intro X hX
+        rcases List.mem_cons.1 hX with rfl | hX
+        · exact plainL_append _ g (hp _ (by simp))
+        · exact hp X (List.mem_cons_of_mem _ hX)
+      · rw [flatGates_reverse_cons]; simp [layerGates]
+      · rw [flatGates_reverse_cons]; simp [layerGates, Layer.append]
+      · intro h hh; simp at hh
+    unfold takeRev
+    by_cases hm : P.isMeas = true
+    · rw [if_pos hm]; exact stop
+    · rw [if_neg hm]
+      by_cases hPi : P.indep g = true
+      · rw [if_pos hPi]
+        obtain ⟨hpl, A, B, e1, e2, hB⟩ := ih P hPi (fun X hX => hp X (List.mem_cons_of_mem _ hX))
+        refine ⟨?_, A, B ++ gs, ?_, ?_, ?_⟩
+        · intro X hX
+          rcases List.mem_cons.1 hX with rfl | hX
+          · exact hp _ (by simp)
+          · exact hpl X hX
+        · rw [flatGates_reverse_cons, e1]; simp [layerGates]
+        · rw [flatGates_reverse_cons, e2]; simp [layerGates]
+        · intro h hh
+          rcases List.mem_append.1 hh with hh | hh
+          · exact hB h hh
+          · exact hgs h hh
+      · rw [if_neg hPi]; exact stop
+
+/-! ## the invariant of a circuit under construction -/
+
+def Inv (N : Nat) (c : Circ) (pre : List Gate) : Prop :=
+  c.N = N ∧ c.unitary = true ∧ c.fmap = none ∧ (∀ L ∈ c.layers, PlainL L) ∧
+  (∀ h ∈ flatGates c.layers, h.WF N) ∧
+  ∀ P : Pauli, P.g.length = N → PEq (seqAct (flatGates c.layers) N P) (seqAct pre N P)
+
+theorem inv_init (N : Nat) : Inv N { N := N } [] := by
+  refine ⟨rfl, rfl, rfl, ?_, ?_, ?_⟩
+  · intro L hL
+    simp only [List.mem_singleton] at hL
+    exact ⟨[], none, hL⟩
+  · intro h hh; simp [flatGates, layerGates] at hh
+  · intro P _; exact PEq.refl _
+
+theorem take_inv (N : Nat) (c c' : Circ) (pre : List Gate) (g : Gate) (hI : Inv N c pre) (hg : g.WF N)
+    (ht : c.take g = .ok c') : Inv N c' (pre ++ [g]) := by
+  obtain ⟨hN, hu, hf, hp, hw, hs⟩ := hI
+  have key : ∀ (Ls : List Layer), (∀ L ∈ Ls, PlainL L) → (∀ h ∈ flatGates Ls, h.WF N) →
+      (∀ P : Pauli, P.g.length = N → PEq (seqAct (flatGates Ls) N P) (seqAct (flatGates c.layers ++ [g]) N P)) →
+      Inv N { c with layers := Ls } (pre ++ [g]) := by
+    intro Ls h1 h2 h3
+    refine ⟨hN, hu, hf, h1, h2, ?_⟩
+    intro P hP
+    refine (h3 P hP).trans ?_
+    rw [seqAct_append, seqAct_append]
+    exact gateAct_congr g N (hs P hP)
+  unfold Circ.take at ht
+  split at ht
+  · cases ht
+  · split at ht
+    · cases ht
+    · cases hrev : c.layers.reverse with
+      | nil => rw [hrev] at ht; cases ht
+      | cons L rest =>
+        have hlay : c.layers = (L :: rest).reverse := by rw [← hrev, List.reverse_reverse]
+        rw [hrev] at ht
+        dsimp only at ht
+        split at ht
+        · rename_i hc
+          rw [Bool.and_eq_true] at hc
+          cases ht
+          have hpR : ∀ X ∈ L :: rest, PlainL X := by
+            intro X hX; apply hp; rw [hlay]; exact List.mem_reverse.2 hX
+          obtain ⟨hpl, A, B, e1, e2, hB⟩ := takeRev_spec g rest L hc.2 hpR
+          rw [← hlay] at e1
+          apply key
+          · intro X hX; exact hpl X (List.mem_reverse.1 hX)
+          · intro h hh
+            rw [e2] at hh
+            rcases List.mem_append.1 hh with hh | hh
+            · exact hw h (by rw [e1]; exact List.mem_append_left _ hh)
+            · rcases List.mem_cons.1 hh with rfl | hh
+              · exact hg
+              · exact hw h (by rw [e1]; exact List.mem_append_right _ hh)
+          · intro P _
+            rw [e2, e1]
+            exact seqAct_insert A B g N P hB
+        · cases ht
+          apply key
+          · intro X hX
+            rcases List.mem_append.1 hX with hX | hX
+            · exact hp X hX
+            · simp only [List.mem_singleton] at hX
+              exact ⟨[g], none, hX⟩
+          · intro h hh
+            rw [flatGates_append] at hh
+            rcases List.mem_append.1 hh with hh | hh
+            · exact hw h hh
+            · simp [flatGates, layerGates] at hh
+              subst hh; exact hg
+          · intro P _
+            rw [flatGates_append]
+            simp only [flatGates, layerGates, List.flatMap_cons, List.flatMap_nil, List.append_nil]
+            exact PEq.refl _
+
+theorem fold_inv (N : Nat) (gsl : List Gate) : ∀ (c0 c : Circ) (pre : List Gate), Inv N c0 pre →
+    (∀ g ∈ gsl, g.WF N) → gsl.foldlM (fun c g => c.take g) c0 = .ok c → Inv N c (pre ++ gsl) := by
+  induction gsl with
+  | nil =>
+    intro c0 c pre hI _ h
+    have : c0 = c := by simpa [List.foldlM, pure, Except.pure] using h
+    subst this
+    rw [List.append_nil]; exact hI
+  | cons g gs ih =>
+    intro c0 c pre hI hw h
+    rw [List.foldlM_cons] at h
+    cases ht : c0.take g with
+    | error e => rw [ht] at h; cases h
+    | ok c1 =>
+      rw [ht] at h
+      have h1 := take_inv N c0 c1 pre g hI (hw g (by simp)) ht
+      have := ih c1 c (pre ++ [g]) h1 (fun x hx => hw x (by simp [hx])) h
+      rw [List.append_assoc] at this
+      exact this
+
+theorem rowsPEq_map (rows : List Pauli) (f f' : Pauli → Pauli) (h : ∀ R ∈ rows, PEq (f R) (f' R)) :
+    RowsPEq' (rows.map f) (rows.map f') := by
+  refine ⟨by simp, ?_⟩
+  intro i hi
+  have hi' : i < rows.length := by simpa using hi
+  rw [Tr.rowAt_map f rows i hi', Tr.rowAt_map f' rows i hi']
+  exact h _ (Tr.rowAt_mem rows i hi')
+
+theorem forward_of_inv (N : Nat) (c : Circ) (pre : List Gate) (rows : List Pauli) (r : Nat) (s : Bool)
+    (coins : List Bool) (rnd : List CMap) (hI : Inv N c pre) (hr : ∀ R ∈ rows, R.g.length = N) :
+    ∃ c' rows', c.forward ⟨⟨rows, r, s⟩, coins, rnd⟩ = .ok (c', ⟨⟨rows', r, s⟩, coins, rnd⟩) ∧
+      RowsPEq' rows' (rows.map (seqAct pre N)) := by
+  obtain ⟨hN, hu, hf, hp, hw, hs⟩ := hI
+  subst hN
+  refine ⟨{ c with layers := c.layers }, rows.map (seqAct (flatGates c.layers) c.N), ?_, ?_⟩
+  · have e := layersForward_eq c.N c.layers rows r s coins rnd hp hw hr
+    unfold Circ.forward
+    rw [if_pos hu]
+    split
+    · rename_i M hM; rw [hf] at hM; cases hM
+    · rw [e]
+  · exact rowsPEq_map rows _ _ (fun R hR => hs R (hr R hR))
+
+end Ci
 end PC
